@@ -388,4 +388,8 @@ class ParseMCNPCell:
                 raise NotImplementedError('affine transformations with m!=1 '
                                           'are not supported yet')
             trcl_params = trcl_params[:12]
+        if 3 < len(trcl_params) < 12:
+            # the rotation matrix was given in abbreviated form: complete it
+            # as for TR cards and inline FILL transformations
+            trcl_params = normalize_transform(trcl_params)
         return tuple(trcl_params)
